@@ -116,7 +116,11 @@ def codesFrom {α : Type} (t : Trace) : Nat → List (List α) → Except Err (L
     let r ← codesFrom t (k + 1) ss
     pure (a :: r)
 
-/-- `get_codes(alignment)`: one row per sequence, `none` = −1. -/
+/-- `get_codes(alignment)`: one row per sequence, `none` = −1.
+The model is dtype-independent: a code is an unbounded natural and the gap is a separate value, so an entry is a
+gap exactly when the trace entry is a gap and otherwise it *is* `sequences[k].code[j]`, whatever the size of the
+alphabet (the real matrix is int64; a narrower matrix would turn large codes into other codes or into −1 — the
+`bigalph` correspondence stream exercises codes around 2^15 and 2^16). -/
 def getCodes (seqs : List (List Nat)) (t : Trace) : Except Err (List (List (Option Nat))) := codesFrom t 0 seqs
 
 /-- `get_symbols(alignment)`: codes decoded through each sequence's alphabet (`decode_multiple` raises
